@@ -41,7 +41,7 @@ def simple_name(max_comp=3):
 
 
 def distinct_names(n_min=0, n_max=6, name=None, prefix_free=False):
-    name = name or rel_name()
+    name = rel_name() if name is None else name
     s = st.lists(name, min_size=n_min, max_size=n_max, unique=True)
     if prefix_free:
         def pf(names):
